@@ -652,7 +652,20 @@ func (r *Replica) Restore(ctx context.Context, opt RestoreOptions) (err error) {
 				if latestSnapshot.MinTXID > txid {
 					return fmt.Errorf("cannot resume follow mode: saved TXID %s is behind the earliest snapshot (min TXID %s); replica history has been pruned -- delete %s and %s-txid to re-restore", txid, latestSnapshot.MinTXID, opt.OutputPath, opt.OutputPath)
 				}
-				if txid > latestSnapshot.MaxTXID {
+				// A follower is normally ahead of the newest snapshot: it keeps
+				// applying level-0 files written after it. The saved TXID is
+				// only unreachable if no file at any level extends to it.
+				aheadOfReplica := txid > latestSnapshot.MaxTXID
+				for level := 0; aheadOfReplica && level < SnapshotLevel; level++ {
+					info, infoErr := r.MaxLTXFileInfo(ctx, level)
+					if infoErr != nil {
+						return fmt.Errorf("cannot validate saved TXID for crash recovery: %w", infoErr)
+					}
+					if info.MaxTXID >= txid {
+						aheadOfReplica = false
+					}
+				}
+				if aheadOfReplica {
 					return fmt.Errorf("cannot resume follow mode: saved TXID %s is ahead of latest snapshot (max TXID %s); delete %s and %s-txid to re-restore", txid, latestSnapshot.MaxTXID, opt.OutputPath, opt.OutputPath)
 				}
 			}
